@@ -103,6 +103,11 @@ func IsValid(g Graph) bool {
 	if n < 0 {
 		return false
 	}
+	const maxInt = int(^uint(0) >> 1)
+	if n != 0 && n > maxInt/n {
+		// n*n overflows; no data can be that long.
+		return false
+	}
 	size := (n*n + 5) / 6 // ceil(n^2 / 6)
 	g = g[1:]
 	switch {
